@@ -1,15 +1,11 @@
 """C05 — tagged varints sort bytewise in numeric order."""
 from vlib import *  # noqa
 
-PROPERTY = "C05"
-COQ_PROPS = ["Properties_C05"]
 FILES = ["src/varintTagged.c", "src/varintTagged.h"]
 RULE = ("pairs (a,b) and short tuples: both sides of every tagged length boundary, values from every integer "
         "literal in varintTagged.{c,h} (+-2), pairs differing in exactly one payload byte, random bit-lengths; "
         "non-trivial = the two encodings share their first byte or differ in length (the comparison is decided "
         "past byte 0 or across a length boundary)")
-ASSUMPTIONS = ["memcmp over min(len) then length, as C callers compare keys"]
-CONFIGS_QUICK = ["pinned", "O0"]
 
 
 def _pool(rng):
@@ -82,7 +78,7 @@ def o_tuple(args, c):
     return None
 
 
-ORACLES = {"tagged_cmp": o_cmp, "tagged_tuple_cmp": o_tuple}
+ORACLES_C05 = {"tagged_cmp": o_cmp, "tagged_tuple_cmp": o_tuple}
 
 
 def classify(case, m):
@@ -107,3 +103,11 @@ def search(rng, divergent_cases):
                         yield "tagged_cmp %d %d" % (a + da, b + db)
     r2 = random.Random(rng.getrandbits(32))
     yield from generate(r2, "thorough")
+
+
+PARTS = {
+    "C05": dict(coq_props=["Properties_C05"], files=FILES, rule=RULE, generate=generate,
+                oracles=ORACLES_C05, classify=classify, search=search,
+                assumptions=["memcmp over min(len) then length, as C callers compare keys"],
+                configs_quick=["pinned", "O0"]),
+}
